@@ -416,6 +416,36 @@ pub fn run(ctx: &Ctx) -> Outcome {
         } else {
             let len = shard - 257;
             if len == 16 {
+                // every supported type's block with its id (and its family) replaced by every other value: only the
+                // (family, id) pair decides, never the rest of the block — and a supported pair stays supported whatever
+                // the other 14 bytes are (all 00, all FF, another type's, its own shifted)
+                for t in TYPES.iter() {
+                    let genuine = t.ty.to_bytes().to_vec();
+                    for v in 0..=255u8 {
+                        let mut b = genuine.clone();
+                        b[1] = v;
+                        check_decode(&b, rep);
+                        let mut b = genuine.clone();
+                        b[0] = v;
+                        check_decode(&b, rep);
+                    }
+                    for other in TYPES.iter() {
+                        let mut b = other.ty.to_bytes().to_vec();
+                        b[0] = t.family;
+                        b[1] = t.id;
+                        check_decode(&b, rep);
+                    }
+                    for fill in [0x00u8, 0xFF, 0x55, 0x20, 0x04, 0x08] {
+                        let mut b = vec![fill; 16];
+                        b[0] = t.family;
+                        b[1] = t.id;
+                        check_decode(&b, rep);
+                    }
+                    let mut shifted = genuine.clone();
+                    shifted[2..].rotate_left(1);
+                    check_decode(&shifted, rep);
+                    rep.count("genuine_blocks_with_foreign_ids_and_tails");
+                }
                 // genuine blocks followed by more bytes, at lengths that are 16 again once narrowed to 8 / 16 / 24 bits
                 for t in TYPES.iter() {
                     for total in [16 + 256usize, 16 + 512, 16 + 65_536, 16 + (1 << 24), 256, 65_536] {
@@ -449,6 +479,7 @@ pub fn run(ctx: &Ctx) -> Outcome {
     let floors = vec![
         floor("11/11 supported types checked", report.get("types_checked") == 11, report.get("types_checked")),
         floor("all 65536 (family, id) pairs swept", report.get("pairs_swept") == 65_536, report.get("pairs_swept")),
+        floor("every type's block under every other id / family, and every supported pair over constant and foreign tails", report.get("genuine_blocks_with_foreign_ids_and_tails") == 11, report.get("genuine_blocks_with_foreign_ids_and_tails")),
         floor("every length 0..=40", report.set_len("lengths") == 41, report.set_len("lengths")),
         floor("lengths that are 16 modulo 2^8 / 2^16 / 2^24", report.set_len("long_lengths") == 6, report.set_len("long_lengths")),
         floor("listed pairs accepted and unlisted pairs rejected", report.get("accepted_listed") >= 11 * 8 && report.get("rejected_unlisted") > 500_000, report.get("accepted_listed")),
